@@ -8,6 +8,7 @@
 //                                    sub-trees evaluated in either order; combined join(left,right)
 //   concurrent_vector::push_back     inside a parallel region: lands at an arbitrary position among the
 //                                    elements pushed during that region; outside: appends
+//   concurrent_vector::size          inside a parallel region: a snapshot that may miss concurrent pushes
 //   global_control                   live limits, active value = minimum (default when none)
 // Tasks run one at a time (the model explores orders, not true simultaneity); data-race freedom is
 // argued separately by the frame contracts of the tasks (K5).
@@ -143,6 +144,8 @@ public:
     typedef T value_type;
     typedef blocked_range<iterator> range_type;
     concurrent_vector() {}
+    explicit concurrent_vector(size_type n) : v_(n) {}
+    concurrent_vector(size_type n, const T &x) : v_(n, x) {}
     iterator push_back(const T &x) {
         auto &c = vp_tbb::chooser();
         if (c.region_depth > 0) {
@@ -154,7 +157,14 @@ public:
         v_.push_back(x);
         return v_.end() - 1;
     }
-    size_type size() const { return v_.size(); }
+    // During concurrent growth size() is only a snapshot: inside a parallel region it may miss pushes of
+    // tasks that run "at the same time", i.e. it returns any value between the size at region start and now.
+    size_type size() const {
+        auto &c = vp_tbb::chooser();
+        if (c.region_depth > 0 && last_region_ == c.region_id && v_.size() > region_start_)
+            return region_start_ + (size_type) c.choose((int) (v_.size() - region_start_ + 1));
+        return v_.size();
+    }
     bool empty() const { return v_.empty(); }
     T& operator[](size_type i) { return v_[i]; }
     const T& operator[](size_type i) const { return v_[i]; }
